@@ -893,12 +893,18 @@ func (s *scenarioRun) checkCalls() {
 		if st.Details.Outcome.Outcome != auditlog.OutcomePending {
 			s.viol("start-outcome-not-pending:"+c.Method, "START entry outcome is "+string(st.Details.Outcome.Outcome), wit())
 		}
+		// the outcome that counts is the one of the storage call itself (what the inner storage
+		// returned); for a call that never reached the inner storage, what the caller saw
+		refErr, refHas := c.Err, c.HasErr
+		if in != nil {
+			refErr, refHas = inner.Err, inner.HasErr
+		}
 		wantOutcome := auditlog.OutcomeSuccess
-		if c.HasErr {
+		if refHas {
 			wantOutcome = auditlog.OutcomeError
 		}
-		if co.Details.Outcome.Outcome != wantOutcome || co.Details.Outcome.Error != c.Err {
-			s.viol("outcome-mismatch:"+c.Method, fmt.Sprintf("COMPLETE says %s/%q, the call returned %q", co.Details.Outcome.Outcome, co.Details.Outcome.Error, c.Err), wit())
+		if co.Details.Outcome.Outcome != wantOutcome || co.Details.Outcome.Error != refErr {
+			s.viol("outcome-mismatch:"+c.Method, fmt.Sprintf("COMPLETE says %s/%q, the storage call returned %q (caller saw %q)", co.Details.Outcome.Outcome, co.Details.Outcome.Error, refErr, c.Err), wit())
 		}
 		rep.Seen("status_codes", fmt.Sprint(co.Details.Outcome.StatusCode))
 		// what was recorded identifies the call
